@@ -33,7 +33,7 @@ impl Engine for Mt {
     }
 
     fn properties(&self) -> Vec<&'static str> {
-        vec!["C04", "C06", "C08", "C09", "C10", "C13"]
+        vec!["C04", "C06", "C08", "C18", "C09", "C10", "C13"]
     }
 
     fn plan(&self, prop: &str, tier: &str) -> Vec<(String, u64)> {
@@ -45,6 +45,7 @@ impl Engine for Mt {
             "C10" => vec![p("mt.drop", 24000, 2_000_000)],
             "C04" => vec![p("mt.corrupt", 8000, 400_000)],
             "C06" => vec![p("mt.hostile", 8000, 400_000)],
+            "C18" => vec![p("mt.sizes", 6000, 400_000)],
             "C13" => vec![p("mt.determ", 8000, 500_000)],
             _ => vec![],
         }
@@ -68,6 +69,7 @@ impl Engine for Mt {
             "C10" => PropMeta { level: "exploration", rule: format!("{common}the reader or writer is dropped after d caller operations (d = 0..11, 0 = right after new), or after finish / end of stream, or after an injected error. Oracle: drop returns, afterwards every spawned task runs to completion (a task left blocked is reported by the scheduler as a leak), and the census hook never sees more live workers than clamp(requested, 1, 256) (requested in {{0,1,2,3,4,8,300}}). Non-trivial: every run."), assumptions: vec!["a worker blocked forever under the simulated scheduler is a leaked OS thread in the real build".into()], real, stubs, exhaustive_part: None },
             "C06" => PropMeta { level: "exploration", rule: format!("{common}mt.hostile: LZMA2ReaderMT / LZIPReaderMT on garbage (raw, behind a plausible header, with a plausible member-size trailer), on valid streams hit by 1-4 storage faults, and on thousands of empty members / one-byte units, coroutine stack 256 KiB or 1 MiB. Oracle: every read returns (no deadlock, no step overrun), no panic, no stack overflow (worker process death), no leaked worker, worker bound respected. Non-trivial: every run."), assumptions: vec!["stack overflow is detected against the coroutine stack size chosen by the harness, not a platform default".into()], real, stubs, exhaustive_part: None },
             "C04" => PropMeta { level: "exploration", rule: format!("{common}mt.corrupt: LZIPReaderMT on valid 1-12 member files hit by 1-2 storage faults (bit flip, byte substitution, truncation at a random fraction). Oracle as for the single-threaded reader: Err, or exactly the original data (or, by the format's trailing-garbage rule, its first k members when the file no longer continues with the member magic). Non-trivial: every run."), assumptions: vec!["weak-memory reorderings are not explored".into()], real, stubs, exhaustive_part: None },
+            "C18" => PropMeta { level: "exploration", rule: format!("{common}mt.sizes (the mt.equiv scenario with incompressible and mixed inputs weighted up): writer role - the sink is parsed with the harness's LZMA2 chunk walker / LZIP member walker: every unit but the last holds exactly max(unit size, dictionary) bytes, units sum to the input; reader role - chunk_count() / member_count() after a complete read equal the number of independent units the parser finds (units that start with an uncompressed chunk included). Non-trivial: more than one unit."), assumptions: vec!["weak-memory reorderings are not explored".into()], real, stubs, exhaustive_part: None },
             "C13" => PropMeta { level: "exploration", rule: format!("{common}mt.determ: writer role only, no flush: the MT writer's output must equal the concatenation of single-threaded encodings of the fixed-size units, whatever the schedule, worker count and write partition."), assumptions: vec!["weak-memory reorderings are not explored".into()], real, stubs, exhaustive_part: None },
             _ => PropMeta { level: "exploration", rule: common.into(), assumptions: vec![], real, stubs, exhaustive_part: None },
         }
